@@ -35,6 +35,15 @@ Second extension (GAPS-C19.md, "Second pass"):
     proteins, fields longer than 64 KiB, hundreds of columns; line-break-like characters inside fields;
   * `convert_line_pin_to_tsv` called directly with other separators, positionally, on fields holding the other
     separator characters.
+
+Third extension (GAPS-C19.md, "Third pass"; /repo 750c44b replaced `str.strip()` by `rstrip("\\r\\n")`, finding D49):
+  * empty and blank fields at every position of a line, also first and last; carriage returns before the line end are
+    the only "padding"; a regression to whitespace stripping is the spec violation `edge-field-lost`;
+  * csv-dialect characters and quote spans in fields (seeded C19e); exceptions other than StopIteration/AssertionError
+    of the functions under test are results (`raised-<Type>`), not harness crashes;
+  * the line normalisation on arbitrary lines: model `chomp` vs `str.rstrip("\\r\\n")`, first write of
+    `pin_to_valid_tsv` vs `rewriteLine`;
+  * a valid, plainly stored document is reported valid and converted to itself (`C19_valid_input_unchanged`).
 """
 from __future__ import annotations
 
@@ -71,12 +80,24 @@ RULE = (
     "66 000), long rectangular documents, rows with 3 000 proteins, a field of 70 000 characters, 600 columns "
     "(thorough: 20 000 proteins, 1.1 M characters, 5 000 columns); line-break-like characters (VT, FS, RS, NEL, "
     "U+2028) inside fields; (j) convert_line_pin_to_tsv called directly with other separators, positionally, on "
-    "fields holding the other separator characters"
+    "fields holding the other separator characters; third pass (after fix D49, rstrip(\"\\r\\n\") instead of strip()): "
+    "(k) fields may be EMPTY or BLANK at every position incl. the first and last field of a line (25 % of the documents "
+    "get such edges explicitly; the exhaustive sweep has an empty-first-field and an empty/blank-last-field variant of "
+    "every document), lines end with 0..2 carriage returns instead of whitespace padding; (l) csv-dialect characters in "
+    "fields (double/single quote, backslash, comma, blanks, tab-free control characters), quote forms (opened and never "
+    "closed, doubled, escaped) and quote spans over several fields of a row; (m) the line normalisation itself: model "
+    "chomp vs str.rstrip and the first write of pin_to_valid_tsv on ~800 arbitrary first lines (blank/tab/CR edges) vs "
+    "the model; (n) a valid, plainly stored document must be converted to itself"
 )
 
-PADS = [" ", "\t", "\r", "\x0b", "\x0c", " ", " ", "\x1f", "  "]
+PADS = ["\r"]   # all that rstrip("\r\n") removes besides the newline (third pass: the code no longer strips blanks)
 FIELD_CHARS = list("abcXYZ019|._-:;, ") + ["é", "β", " ", "中", "\U0001f600", "\r",
-                                          "\x0b", "\x1c", "\x1e", "\x85", "\u2028"]  # str.splitlines() breaks at these
+                                          "\x0b", "\x1c", "\x1e", "\x85", "\u2028",  # str.splitlines() breaks at these
+                                          '"', "'", "\\", '"', " ", "\t", "\x0c", "\xa0"]  # csv dialect characters, blanks
+# third pass: shapes of a field a csv-dialect aware reader treats specially (quotes that open and never close,
+# doubled quotes, escapes, blanks at either end) — see seeded/C19e
+QUOTE_FORMS = ['"{}', '{}"', '"{}"', "'{}", "{}'", '""{}', '"{}""', "\\{}", "{}\\", '"', '""', " {}", "{} ", " {} ",
+               '" {}', '{},"', '"{},']
 NAMES = ["SpecId", "Label", "ScanNr", "ExpMass", "f1", "f2", "lnrSp", "Peptide", "Charge 2", "Proteins"]
 
 
@@ -116,6 +137,8 @@ def impl_convert_w(text, sep_c, sep_p, style="kw"):
         return "reject-stop", out.writes
     except AssertionError:
         return "reject-assert", out.writes
+    except Exception as e:  # noqa: BLE001 — any other exception is a behaviour of the code under test, not of the harness
+        return "raised-" + type(e).__name__, out.writes
     return ("ok", "".join(out.writes)), out.writes
 
 
@@ -134,6 +157,8 @@ def impl_valid(text, sep_c, style="kw"):
         return bool(is_valid_tsv(io.StringIO(text), sep_column=sep_c))
     except StopIteration:
         return "reject-stop"
+    except Exception as e:  # noqa: BLE001 — see impl_convert_w
+        return "raised-" + type(e).__name__
 
 
 def compare_writes(chk, info, got, writes, r):
@@ -331,30 +356,48 @@ def py_univnl(raw):
 # documents
 # ----------------------------------------------------------------------------
 def rand_field(rng, sep_c, edge=False, allow_empty=True):
+    """a field: any characters but the column separator and the newline; EMPTY and BLANK fields, blanks at either end
+    are generated at every position of a line (third pass), `edge=True` (header names) only makes them rarer"""
     chars = [c for c in FIELD_CHARS if c != sep_c]
-    n = rng.choice([0, 1, 1, 2, 3, 5, 9]) if (allow_empty and not edge) else rng.choice([1, 1, 2, 3, 5, 9])
+    n = rng.choice([0, 1, 1, 2, 3, 5, 9]) if (allow_empty and (not edge or rng.random() < 0.3)) \
+        else rng.choice([1, 1, 2, 3, 5, 9])
     s = "".join(rng.choice(chars) for _ in range(n))
-    if edge:
-        s = s.strip()
-        if not s:
-            s = rng.choice("abXY01|")
+    if rng.random() < 0.12:
+        s = rng.choice(QUOTE_FORMS).replace("{}", s).replace(sep_c, "")
     return s
 
 
-def rand_pad(rng, p):
-    if rng.random() >= p:
+def rand_pad(rng, p, left=False):
+    """what may stand between the last field and the newline: carriage returns (nothing before the first field)"""
+    if left or rng.random() >= p:
         return ""
-    return "".join(rng.choice(PADS) for _ in range(rng.choice([1, 1, 2, 3])))
+    return "\r" * rng.choice([1, 1, 1, 2])
 
 
 def fix_edges(rng, fields, sep_c):
-    """first field must start, last field must end, with a non-space character"""
+    """the last field of a line must not end with a carriage return (it would be taken for the line terminator);
+    nothing else is required of the first and last field: they may be empty or blank"""
     f = list(fields)
-    if not f[0] or f[0][0].isspace():
-        f[0] = rng.choice("abXY01|") + f[0].strip()
-    if not f[-1] or f[-1][-1].isspace():
-        f[-1] = f[-1].strip() + rng.choice("abXY01|")
+    if f[-1].endswith("\r"):
+        f[-1] = f[-1] + rng.choice(["a", " ", '"', "\x0c"])
     return f
+
+
+def quote_span(rng, rows, sep_c):
+    """csv-style quoting across fields (the shape of seeded C19e): some field of a row starts with a double quote and
+    a LATER field of the same row — or of a later row — ends with one, so that a quote-aware reader swallows the
+    separators (and newlines) in between"""
+    for r in rows:
+        if rng.random() < 0.5:
+            fs = [(1, i) for i in range(len(r[1]))] + [(2, i) for i in range(len(r[2]))] + [(3, i) for i in range(len(r[3]))]
+            if rng.random() < 0.6 and len(r[2]) >= 2:
+                a, b = (2, 0), (2, len(r[2]) - 1)
+            else:
+                a = rng.choice(fs)
+                b = rng.choice(fs[fs.index(a):])
+            r[a[0]][a[1]] = '"' + r[a[0]][a[1]]
+            if rng.random() < 0.8:
+                r[b[0]][b[1]] = r[b[0]][b[1]] + '"'
 
 
 def gen_doc(rng, big=False, n_rows_forced=None):
@@ -388,7 +431,10 @@ def gen_doc(rng, big=False, n_rows_forced=None):
     dd = None
     if rng.random() < 0.4:
         tail = "".join(sep_c + rng.choice(["-", "0.5", "1", ""]) for _ in range(rng.randint(0, n_pre + n_post + 2)))
-        dd = rand_pad(rng, pad_p) + "DefaultDirection" + rng.choice(["", "", "s", " x"]) + tail + rand_pad(rng, pad_p)
+        dd = "DefaultDirection" + rng.choice(["", "", "s", " x"]) + tail
+        if dd.endswith("\r"):
+            dd += "-"
+        dd += rand_pad(rng, pad_p)
         if rng.random() < 0.15:
             n_rows = 0
     if n_rows_forced is not None:
@@ -402,16 +448,32 @@ def gen_doc(rng, big=False, n_rows_forced=None):
         post = [rand_field(rng, sep_c) for _ in range(n_post)]
         fs = fix_edges(rng, pre + prots + post, sep_c)
         pre, prots, post = fs[:n_pre], fs[n_pre:n_pre + k], fs[n_pre + k:]
-        rows.append([rand_pad(rng, pad_p), pre, prots, post, rand_pad(rng, pad_p)])
+        rows.append(["", pre, prots, post, rand_pad(rng, pad_p)])
+    if rows and rng.random() < 0.15:
+        quote_span(rng, rows, sep_c)
+        for r in rows:
+            fs = fix_edges(rng, r[1] + r[2] + r[3], sep_c)
+            r[1], r[2], r[3] = fs[:n_pre], fs[n_pre:len(fs) - n_post], fs[len(fs) - n_post:]
+    if rows and rng.random() < 0.25:
+        # third pass: empty / blank FIRST and LAST fields of a line, explicitly (the shapes str.strip() destroyed)
+        for r in rows:
+            if rng.random() < 0.6:
+                which = rng.choice(["first", "last", "both"])
+                fs = r[1] + r[2] + r[3]
+                if which in ("first", "both"):
+                    fs[0] = rng.choice(["", "", " ", "\x0c", " a", "\xa0"])
+                if which in ("last", "both"):
+                    fs[-1] = rng.choice(["", "", " ", "\x0c", "a ", "\xa0", "b\x0b"])
+                r[1], r[2], r[3] = fs[:n_pre], fs[n_pre:len(fs) - n_post], fs[len(fs) - n_post:]
     if rows and rng.random() < 0.02:
         # a PSM id that looks like a DefaultDirection line: outside the hypotheses (see eval_docs)
         if n_pre:
-            rows[0][1][0] = "DefaultDirection_" + rows[0][1][0].strip()
+            rows[0][1][0] = "DefaultDirection_" + rows[0][1][0]
         else:
-            rows[0][2][0] = "DefaultDirection_" + rows[0][2][0].strip()
+            rows[0][2][0] = "DefaultDirection_" + rows[0][2][0]
         rows[0][1:4] = [x for x in (lambda fs: (fs[:n_pre], fs[n_pre:len(fs) - n_post], fs[len(fs) - n_post:]))(
             fix_edges(rng, rows[0][1] + rows[0][2] + rows[0][3], sep_c))]
-    doc = dict(hpadL=rand_pad(rng, pad_p), cols=cols, hpadR=rand_pad(rng, pad_p), dd=dd, rows=rows,
+    doc = dict(hpadL="", cols=cols, hpadR=rand_pad(rng, pad_p), dd=dd, rows=rows,
                trailing=rng.random() < 0.6, sepC=sep_c, sepP=sep_p, layout=layout)
     # how the document is stored / given to the file entry points (kept in the document: replayable)
     doc["term"] = rng.choice(TERMS)
@@ -497,11 +559,15 @@ def doc_lines(d):
 
 
 def no_cr_doc(d):
-    f = lambda x: x.replace("\r", "\x0c")  # another whitespace character, never a column separator here
-    return dict(d, hpadL=f(d["hpadL"]), hpadR=f(d["hpadR"]), cols=[f(c) for c in d["cols"]],
-                dd=None if d["dd"] is None else f(d["dd"]),
-                rows=[[f(r[0]), [f(x) for x in r[1]], [f(x) for x in r[2]], [f(x) for x in r[3]], f(r[4])]
-                      for r in d["rows"]])
+    f = lambda x: x.replace("\r", "\x0c")  # another control character, never a column separator here
+    g = lambda x: x.replace("\r", "")      # carriage returns before the line end: dropped (the terminator is chosen by `term`)
+    nd = dict(d, hpadL=g(d["hpadL"]), hpadR=g(d["hpadR"]), cols=[f(c) for c in d["cols"]],
+              dd=None if d["dd"] is None else f(d["dd"].rstrip("\r")),
+              rows=[[g(r[0]), [f(x) for x in r[1]], [f(x) for x in r[2]], [f(x) for x in r[3]], g(r[4])]
+                    for r in d["rows"]])
+    if not nd["trailing"] and doc_lines(nd)[-1] == "":
+        nd["trailing"] = True   # an empty last line only exists when it is terminated (lastLineOk)
+    return nd
 
 
 def render_pin_t(d, term):
@@ -564,6 +630,25 @@ def doc_prots_free(d):
     return len(p) == 1 and all(p not in x for r in d["rows"] for x in r[2])
 
 
+def doc_plain(d):
+    """stored plainly: no carriage return before a line end, last line terminated (`PinDoc.plain`)"""
+    return not d["hpadR"] and all(not r[4] for r in d["rows"]) and bool(d["trailing"])
+
+
+def doc_tsv_edge_ok(d):
+    """no converted row ends with a carriage return (`tsvEdgeOk`): what the second conversion needs"""
+    return all((pre + [d["sepP"].join(prots)] + post)[-1][-1:] != "\r" for _, pre, prots, post, _ in d["rows"])
+
+
+def edge_sensitive_lines(d):
+    """indices (in the OUTPUT) of the lines whose first field is empty / starts with a blank or whose last field is empty /
+    ends with a blank: the lines a `str.strip()` in the converter would damage (finding D49)"""
+    def sens(fs):
+        return (not fs[0]) or fs[0][0].isspace() or (not fs[-1]) or fs[-1][-1].isspace()
+    idx = [0] if sens(d["cols"]) else []
+    return idx + [i + 1 for i, (_, pre, prots, post, _) in enumerate(d["rows"]) if sens(pre + prots + post)]
+
+
 def unfold_text(text, sep_c, sep_p, idx):
     """the data rows of a rectangular text with the protein column split again at the protein separator"""
     rows = [l.split(sep_c) for l in text.split("\n")[1:-1]] if text.endswith("\n") else None
@@ -596,10 +681,11 @@ def eval_docs(chk, docs, cli=False, tmpdir=None, files=0):
         # the Lean unfolding of the expected text only validates the python restatement `unfold_text`: small documents
         lines.append(req("unfoldtable", d["sepC"], d["sepP"], d["cols"].index("Proteins"), expected_text(d))
                      if (doc_prots_free(d) and len(d["rows"]) <= UNFOLD_LEAN_ROWS) else req("validspec", "\t", ""))
+        lines.append(req("spec-C19-edge", d["sepC"], d["sepP"], doc_wire(d)))
     resp = common.driver_batch(lines)
     later = []
     file_items = []
-    NREQ = 6
+    NREQ = 7
     for k, d in enumerate(docs):
         text = render_pin(d)
         sp = dec(resp[NREQ * k])
@@ -628,6 +714,10 @@ def eval_docs(chk, docs, cli=False, tmpdir=None, files=0):
         # python restatements of the document-level predicates vs Lean
         if sd[:4] != [True, doc_pads_free(d), doc_dd_plain(d), doc_valid_spec(d)] or sd[5] != doc_prots_free(d):
             raise RuntimeError(f"document-level restatement mismatch (python vs Lean) on {text!r}: {sd}")
+        # third pass: python restatements of the edge predicates vs Lean (tsvEdgeOk, plain, edgeSensitive)
+        se = [a_bool(x) for x in dec(resp[NREQ * k + 6])]
+        if se[:3] != [doc_tsv_edge_ok(d), doc_plain(d), bool(edge_sensitive_lines(d))]:
+            raise RuntimeError(f"edge predicate restatement mismatch (python vs Lean) on {text!r}: {se}")
         got, writes = impl_convert_w(text, d["sepC"], d["sepP"], style)
         v_in = impl_valid(text, d["sepC"], style)
         chk.count("call-style", style if (style != "default" or (d["sepC"] == "\t" and d["sepP"] == ":")) else "kw")
@@ -641,6 +731,9 @@ def eval_docs(chk, docs, cli=False, tmpdir=None, files=0):
         chk.count("dd", d["dd"] is not None)
         chk.count("trailing_newline", d["trailing"])
         chk.count("padding", any(r[0] or r[4] for r in d["rows"]) or bool(d["hpadL"] or d["hpadR"]))
+        es = edge_sensitive_lines(d)
+        chk.count("edge-fields", "none" if not es else ("header" if es == [0] else "rows"))
+        chk.count("csv-quote-chars", any(c in text for c in "\"'\\"))
         chk.count("sepC", repr(d["sepC"]))
         chk.count("sepP", repr(d["sepP"]))
         if not isinstance(got, tuple):
@@ -657,7 +750,22 @@ def eval_docs(chk, docs, cli=False, tmpdir=None, files=0):
                 clause = "header not preserved"
             elif len(il) != len(el):
                 clause = "line count differs (one line per PSM, DefaultDirection dropped)"
-            chk.spec_violation("convert-spec", dict(case=jd, input=text, impl=out, expected=exp, clause=clause))
+            sig = "convert-spec"
+            diff = [i for i, (a, b) in enumerate(zip(il, el)) if a != b]
+            if len(il) == len(el) and diff and set(diff) <= set(edge_sensitive_lines(d)):
+                sig = "edge-field-lost"
+                clause = ("a line whose first / last field is empty or blank is not converted to its row of the table "
+                          "(every non-protein field unchanged, wherever the protein column stands)")
+            chk.spec_violation(sig, dict(case=jd, input=text, impl=out, expected=exp, clause=clause))
+        # -- C19_valid_input_unchanged: a file that is already valid (and stored plainly) is converted to itself
+        if doc_plain(d) and doc_valid_spec(d):
+            chk.count("valid-input-fixed-point", "edge-sensitive" if edge_sensitive_lines(d) else "plain")
+            if exp != text:
+                raise RuntimeError(f"valid-input restatement mismatch on {text!r}")
+            if not bad and (out != text or v_in is not True):
+                bad = True
+                chk.spec_violation("valid-input-changed", dict(case=jd, input=text, impl=out, impl_valid=v_in, expected=text,
+                                                               clause="a valid file is not reported valid / is changed by the conversion"))
         # -- lossless, read backwards: the protein column of the output split again gives the PIN fields
         if sd[5]:
             idx_p = d["cols"].index("Proteins")
@@ -679,7 +787,8 @@ def eval_docs(chk, docs, cli=False, tmpdir=None, files=0):
                 bad = True
                 chk.spec_violation("output-valid", dict(case=jd, input=text, impl=out, impl_valid=v_out,
                                                         expected=True, clause="output not recognised as valid"))
-            again = impl_convert(out, d["sepC"], d["sepP"])
+            again = impl_convert(out, d["sepC"], d["sepP"]) if doc_tsv_edge_ok(d) else ("ok", out)
+            chk.count("idempotence", "checked" if doc_tsv_edge_ok(d) else "not promised: a converted row ends with CR")
             if again != ("ok", out):
                 bad = True
                 chk.spec_violation("idempotent", dict(case=jd, input=text, impl=again, expected=out,
@@ -1065,15 +1174,22 @@ def sweep_docs(chk, max_side, max_rows, max_prot, tmpdir, files=0):
                 for n_rows in range(0 if dd else 1, max_rows + 1):
                     for ks in itertools.product(range(1, max_prot + 1), repeat=n_rows):
                         for trailing in (True, False):
-                            for pad in (False, True):
+                            # pad: False | True (carriage returns before the line ends) | "first" / "last" (third pass: the
+                            # first resp. last field of every line is EMPTY — also a protein, also the only field)
+                            for pad in (False, True, "first", "last"):
                                 rows = []
                                 for i, k in enumerate(ks):
-                                    rows.append([" " if pad and i % 2 == 0 else "",
-                                                 [f"a{i}{j}" for j in range(n_pre)],
-                                                 [f"p{i}{j}" for j in range(k)],
-                                                 [f"b{i}{j}" for j in range(n_post)],
-                                                 "\t " if pad else ""])
-                                docs.append(dict(hpadL="", cols=cols, hpadR=" " if pad else "", dd=dd, rows=rows,
+                                    fs = ([f"a{i}{j}" for j in range(n_pre)] + [f"p{i}{j}" for j in range(k)]
+                                          + [f"b{i}{j}" for j in range(n_post)])
+                                    if pad == "first":
+                                        fs[0] = ""
+                                    elif pad == "last":
+                                        fs[-1] = " " if i % 2 else ""
+                                    rows.append(["", fs[:n_pre], fs[n_pre:n_pre + k], fs[n_pre + k:],
+                                                 "\r" if pad is True and i % 2 == 0 else ""])
+                                if not trailing and rows and not any(rows[-1][1] + rows[-1][2] + rows[-1][3]):
+                                    continue  # an empty unterminated last line is no line at all (lastLineOk)
+                                docs.append(dict(hpadL="", cols=cols, hpadR="\r" if pad is True else "", dd=dd, rows=rows,
                                                  trailing=trailing, sepC="\t", sepP=":", layout="sweep"))
     for i in range(0, len(docs), 4000):
         eval_docs(chk, docs[i:i + 4000], cli=(i == 0), tmpdir=tmpdir, files=files)
@@ -1194,6 +1310,46 @@ def probe_observations(chk, tmpdir):
             if os.path.exists(fn):
                 os.unlink(fn)
     chk.count("observation", "binary (Parquet) PSM file through the verify step -> " + res)
+
+
+def check_chomp(chk, n):
+    """third pass — the line normalisation: model `chomp` vs CPython `str.rstrip("\\r\\n")`, and model `rewriteLine` vs
+    the REAL code on arbitrary lines: the first `write` of `pin_to_valid_tsv` is the first input line minus its
+    terminator plus "\\n" whatever the line holds (it happens before the `Proteins` assertion).  A line that does not
+    come back as it is although it does not end with a carriage return is a spec violation (`edge-field-lost`:
+    header / fields not preserved)."""
+    rng = chk.rng
+    alpha = [" ", " ", "\t", "\t", "\r", "a", "b", "\x0c", "\x0b", "\x85", "\u2028", '"', "\xa0", "Proteins", ""]
+    bodies = ["", " ", "\t", "\t\t", " a", "a ", "a\t", "\ta", "a\t\t", "\r", "a\r", "\ra", " \r ", "\x0c", "a\x0b"]
+    bodies += ["".join(rng.choice(alpha) for _ in range(rng.randint(0, 7))) for _ in range(n)]
+    ends = ["", "\n", "\r\n", "\r\r\n", "\r"]
+    lines = [b + e for b in bodies for e in ends]
+    resp = common.driver_batch([req("chomp", lines), req("rewriteline", lines)])
+    m_chomp = deep(a_str, dec(resp[0]))
+    m_rw = deep(a_str, dec(resp[1]))
+    m_chomp = m_chomp if isinstance(m_chomp, list) else [m_chomp]
+    m_rw = m_rw if isinstance(m_rw, list) else [m_rw]
+    for l, mc, mr in zip(lines, m_chomp, m_rw):
+        chk.case(None, ("chomp", l))
+        chk.count("chomp", "edge-blank" if (l.rstrip("\r\n") != l.strip()) else "plain")
+        if mc != l.rstrip("\r\n"):
+            chk.corr_break("chomp", dict(kind="chomp", line=l, impl=l.rstrip("\r\n"), model=mc))
+            continue
+        if not l.endswith("\n") and l.endswith("\r"):
+            text = l + "x"      # cannot be given as a first line without a terminator following: skip the real call
+            continue
+        text = l if l.endswith("\n") else l + "\n"
+        got, writes = impl_convert_w(text + "x\ty\n", "\t", ":", "kw")
+        first = writes[0] if writes else None
+        body = text[:-1]
+        if not body.endswith("\r") and first != body + "\n":
+            chk.spec_violation("edge-field-lost", dict(kind="line", input=text + "x\ty\n", sepC="\t", sepP=":", impl=first,
+                                                       expected=body + "\n",
+                                                       clause="the first line is not written back unchanged (header preserved, "
+                                                              "every field unchanged: blanks and empty fields at its ends)"))
+        elif first != mr and text == l:
+            chk.corr_break("rewriteline", dict(kind="line", line=l, impl=first, model=mr))
+    return len(lines)
 
 
 def check_isspace(chk):
@@ -1326,6 +1482,7 @@ def main(chk, args):
     tmpdir = _mkdtemp()
     try:
         check_isspace(chk)
+        check_chomp(chk, 150 if quick else 5000)
         probe_observations(chk, tmpdir)
         docs = corpus_docs()
         docs += [gen_doc(rng, big=(i % 10 == 0)) for i in range(1500 if quick else 60000)]
@@ -1366,10 +1523,12 @@ def main(chk, args):
         "CPython str.split/join/strip/startswith, list slicing and StringIO line iteration behave as modelled "
         "(split on '\\n' only; the whitespace table is compared with str.isspace/str.strip for every code point)",
         "the column separator is a single character; text is valid Unicode without surrogates",
-        "theorem hypotheses (PinDoc.wf): fields contain no separator/newline, the first and last field of every "
-        "line start/end with a non-whitespace character, >= 1 protein per row, the line after the header that is "
-        "taken as first PSM row does not start with 'DefaultDirection'; outside them (short rows, empty edge "
-        "fields, header-only files, two DefaultDirection-like lines) only implementation = model is checked",
+        "theorem hypotheses (PinDoc.wf, third pass): fields contain no separator/newline, the LAST field of a line does "
+        "not end with a carriage return (it would be part of the line terminator), >= 1 protein per row, the line after "
+        "the header that is taken as first PSM row does not start with 'DefaultDirection', an empty last line is "
+        "terminated; first and last fields may be empty or blank (no hypothesis any more); outside wf (short rows, "
+        "header-only files, two DefaultDirection-like lines) only implementation = model is checked; idempotence is "
+        "promised when no converted row ends with a carriage return (tsvEdgeOk)",
         "CLI verify step: files are read in text mode (universal newlines), so cases with '\\r' are excluded there; "
         "a stale <pin>.tsv (append mode, finding D7 of C09) is not part of this property",
         "extension: text-mode reading is modelled (univNl: CRLF and lone CR read as LF) and compared with CPython's "
@@ -1379,10 +1538,9 @@ def main(chk, args):
         "second extension: what is on disk when the tool / the CLI step raise IS compared (toolMainFs, verifyFilesFs: "
         "output file truncated + header, PIN file untouched, partial <pin>.tsv left behind) — as model correspondence, "
         "the statement promises nothing there; stored files above 150 000 characters: spec comparisons only for the "
-        "on-disk state; document-level validity (C19_valid_doc_iff) is promised for padding free of the column "
-        "separator and a DefaultDirection line that starts with the word — a DefaultDirection line preceded by "
-        "whitespace is dropped by the converter but not seen by is_valid_tsv (tallied as 'observation', compared with "
-        "the model's ddAccepted); the write-call granularity (one write per line) is not part of the statement: a "
+        "on-disk state; document-level validity is promised for every well-formed document (C19_valid_doc_iff_full; "
+        "since fix D49 the converter no longer strips blanks, so a line that reads DefaultDirection after a blank is an "
+        "ordinary row for the converter and for is_valid_tsv alike — C19_dd_test_agrees); the write-call granularity (one write per line) is not part of the statement: a "
         "difference there is a correspondence break, not a spec violation",
     ]
     chk.finish(build, RULE, search=search, lc=lc,
